@@ -6,5 +6,6 @@ HeadLeaves == {"H1", "H2", "H3", "H4", "H5", "H6", "P"}
 AllConts == {"Q", "BL", "OL"}
 NoConts == {}
 ItemLeaves == {"P", "Tbl", "Code"}
+EmptyItemLeaves == {"P", "Code", "EI"}
 ListQuote == {"BL"}
 =============================================================================
